@@ -97,10 +97,12 @@ def monitor(am, engine, cx, events, snaps):
                                     % (tid, t.src, t.target, who, top, x[0]), None))
                     if who is not None and am.nodes[top].kind == "parallel" and t.src != top and t.target != top:
                         regs = [c for c in am.nodes[top].children if am.is_desc(t.src, c) or am.is_desc(t.target, c)]
+                        if am.nodes[t.target].kind.startswith("hist") and am.nodes[t.target].parent == top:
+                            # the history child of the common ancestor is not inside any region: it stands for the
+                            # remembered configuration of ALL of them, which the transition exits and restores
+                            regs = list(am.nodes[top].children)
                         if who != top and not any(am.is_desc(who, r) for r in regs):
                             sig = None
-                            if am.nodes[t.target].kind.startswith("hist") and am.nodes[t.target].parent == top:
-                                sig = dict(kind="entered-while-active", cause="history-target-while-parallel-parent-active")
                             out.append(("transition %d (%d -> %d) touched sibling region state %d (%s)" % (tid, t.src, t.target, who, x[0]), sig))
             seg = []
     # --- accounting over the whole run (runs without aborted transitions)
@@ -112,9 +114,6 @@ def monitor(am, engine, cx, events, snaps):
                     tid = next((x[1] for x in log[i:] if x[0] == "trans"), None)
                     t = tmap.get(tid)
                     sig = None
-                    if t is not None and isinstance(t.target, int) and am.nodes[t.target].kind.startswith("hist") \
-                            and am.is_desc(t.src, am.nodes[t.target].parent) and am.nodes[am.nodes[t.target].parent].kind == "parallel":
-                        sig = dict(kind="entered-while-active", cause="history-target-while-parallel-parent-active")
                     out.append(("state %d was entered while already active (transition %s)" % (o[1], tid), sig))
                 active.add(o[1])
             elif o[0] == "leave":
